@@ -12,6 +12,7 @@ Oracles
   O  among concurrent installers of one build-id exactly one reports installed=True
   U  a user that was handed a package can read it through its workspace link afterwards
      (unless a collector was *forced*)
+  R  a workspace that links to a package is recorded in the package's users list
   A  at quiescence repo.json lists exactly the installed packages with their sizes
   Q  a collector removed exactly what the documented rule selects from the store as it was when
      it obtained the exclusive lock (unused only unless forced, oldest first, until quota met)
@@ -290,6 +291,16 @@ def run_scenario(job):
                     open(os.path.join(ws, 'data.txt')).read()
                 except OSError as e:
                     probs.append(('used-package-collected', 'user %s was handed %s but cannot read it afterwards: %s' % (name, os.path.basename(a.result[1]), type(e).__name__)))
+        # R: every workspace that was handed a package and links to it is recorded as its user
+        for name, ws in w.users:
+            a = [a for a in x.actors if a.name == name][0]
+            if a.exc is None and a.result and a.result[0] == 'used' and os.path.isdir(a.result[1]):
+                try:
+                    meta = json.load(open(os.path.join(a.result[1], 'pkg.json')))
+                    if ws not in meta.get('users', []):
+                        probs.append(('user-not-recorded', 'workspace of %s links to the package but is missing from its users list %s (a later gc would collect a used package)' % (name, [os.path.basename(os.path.dirname(os.path.dirname(u))) for u in meta.get('users', [])])))
+                except (OSError, ValueError) as e:
+                    probs.append(('pkg-json-corrupt', 'pkg.json unreadable at quiescence: %s' % type(e).__name__))
         # A: accounting
         if not any(a.exc for a in x.actors):
             rj = os.path.join(w.store, 'repo.json')
